@@ -1621,12 +1621,10 @@ impl Bgi {
             for c in str.chars() {
                 if let Some(glyph) = DEFAULT_BITFONT.get_glyph(c) {
                     for y in 0..8 {
-                        let mut pos = ((yf + y) * self.window.width + xf) as usize;
                         for x in 0..8 {
                             if glyph.data[y as usize] & (1 << (7 - x)) != 0 {
-                                self.screen[pos] = self.color;
+                                self.put_pixel(xf + x, yf + y, self.color);
                             }
-                            pos += 1;
                         }
                     }
                     xf += 8;
